@@ -61,7 +61,7 @@ pub fn cases_for(ctx: &Ctx) -> (Vec<Case>, u32) {
 /// processed by increasing number of deviations; a failure whose signatures are all explained by
 /// already recorded failures of sub-label-sets in the same group is attributed to them.
 pub struct Attribution {
-    roots: Vec<(String, BTreeSet<String>, BTreeSet<String>, String, usize)>, // family, labels, sigs, key, number of raw labels
+    roots: Vec<(String, BTreeSet<String>, BTreeSet<String>, String, usize, BTreeSet<String>)>, // family, labels, sigs, key, number of raw labels, kinds of the top-level declarations the differences lie in
     /// relaxed: a failure is attributed to any failing case of the same family whose labels are a
     /// subset (signatures are not compared: the same lost construct shows as a syntax error in one
     /// context and as a shorter list in another)
@@ -79,7 +79,7 @@ impl Attribution {
     pub fn find_root(&self, group: &str, labels: &[String], sig: &str) -> Option<String> {
         let family = group.split('.').next().unwrap_or(group);
         let lset: BTreeSet<String> = labels.iter().cloned().collect();
-        self.roots.iter().find(|(f, rl, rs, _, raw_n)| f == family && rl.is_subset(&lset) && *raw_n < labels.len() && rs.contains(sig)).map(|r| r.3.clone())
+        self.roots.iter().find(|(f, rl, rs, _, raw_n, _)| f == family && rl.is_subset(&lset) && *raw_n < labels.len() && rs.contains(sig)).map(|r| r.3.clone())
     }
     /// Returns the key to report for this failing case (an existing root key or a new one).
     pub fn key_for(&mut self, group: &str, labels: &[String], sigs: &BTreeSet<String>) -> String {
@@ -107,10 +107,23 @@ impl Attribution {
         };
         let lset: BTreeSet<String> = labels.iter().map(norm_label).collect();
         let nsigs: BTreeSet<String> = sigs.iter().map(norm_sig).collect();
+        // `[0].Function.edge_vars:len` lies in a Function
+        let tops: BTreeSet<String> = sigs
+            .iter()
+            .filter(|x| !x.contains("rejected") && !x.contains("panic") && !x.contains("error"))
+            .filter_map(|x| x.split(['.', ':']).find(|t| t.chars().next().map(|c| c.is_ascii_uppercase()).unwrap_or(false)).map(|t| t.to_string()))
+            .collect();
         let mut covered: BTreeSet<String> = BTreeSet::new();
         let mut first: Option<String> = None;
-        for (f, rl, rs, key, raw_n) in &self.roots {
-            if *f == family && rl.is_subset(&lset) && (self.relaxed || !rs.is_disjoint(&nsigs)) && (*raw_n < labels.len() || key.split('/').next() != Some(group)) {
+        for (f, rl, rs, key, raw_n, rtops) in &self.roots {
+            // relaxed: the same lost construct is a syntax error in one context and a shorter list in another, so a
+            // rejection of the rendered text meets any signature; two tree differences meet when they are at the same
+            // place (last two path segments) or of the same sort inside the same kind of top-level declaration
+            // (the renderer has one routine per kind)
+            let rejected = |s: &BTreeSet<String>| s.iter().any(|x| x.contains("rejected") || x.contains("error") || x.contains("panic") || x.contains("fixed-point"));
+            let sorts = |s: &BTreeSet<String>| -> BTreeSet<String> { s.iter().filter_map(|x| x.rsplit_once(':').map(|p| p.1.to_string())).collect() };
+            let sig_ok = !rs.is_disjoint(&nsigs) || (self.relaxed && (rejected(rs) || rejected(&nsigs) || (!rtops.is_disjoint(&tops) && !sorts(rs).is_disjoint(&sorts(&nsigs)))));
+            if *f == family && rl.is_subset(&lset) && sig_ok && (*raw_n < labels.len() || key.split('/').next() != Some(group)) {
                 covered.extend(rs.iter().cloned());
                 if first.is_none() {
                     first = Some(key.clone());
@@ -123,7 +136,7 @@ impl Attribution {
             }
         }
         let key = format!("{}/{}#{}", group, if labels.is_empty() { "default".to_string() } else { labels.join(",") }, nsigs.iter().cloned().collect::<Vec<_>>().join("+"));
-        self.roots.push((family, lset, nsigs, key.clone(), labels.len()));
+        self.roots.push((family, lset, nsigs, key.clone(), labels.len(), tops));
         key
     }
 }
@@ -214,6 +227,34 @@ pub fn run(ctx: &mut Ctx) {
             }
         }
     }
+    // the parser's option: with `allow_c_style_comments` a `//` comment at the end of every line (and before the
+    // first lexeme) leaves the tree the same as without the comments
+    {
+        let hosts: Vec<&gram::Case> = cases.iter().filter(|c| c.labels.len() <= 1).collect();
+        let res: Vec<Option<(String, String)>> = hosts
+            .par_iter()
+            .map(|c| {
+                let canon = c.text();
+                let plain = front::parse(&canon, "case.st").ok()?;
+                let text = format!("// c\n{} // (* c", canon.replace('\n', " // c\n"));
+                match crate::util::catch(|| front::parse_allowing_c_style_comments(&text, "case.st")) {
+                    Err(p) => Some((format!("panic@{}", p.loc), text)),
+                    Ok(Err(d)) => Some((format!("rejected({})", d.code), text)),
+                    Ok(Ok(lib)) if lib != plain || !nt::diff(&nt::library(&plain), &nt::library(&lib)).is_empty() => Some(("tree-differs".to_string(), text)),
+                    Ok(Ok(_)) => None,
+                }
+            })
+            .collect();
+        for (c, r) in hosts.iter().zip(res.iter()) {
+            ctx.evaluations += 1;
+            ctx.transitions += 1;
+            if let Some((sym, text)) = r {
+                ctx.fail(&format!("line-comments-allowed-by-option/{}#{}", c.group, sym), &format!("{} with `//` comments and allow_c_style_comments: {} :: {}", c.id(), sym, crate::util::short(text, 160)), json!({"mode":"text-with-option","text": text}));
+            } else {
+                ctx.outcome("`//` comments with the option that allows them: same tree");
+            }
+        }
+    }
     // literals: the structured literal space of C09 (values are part of the tree the parser returns)
     let lits = crate::checks::c09::literals();
     let lit_res: Vec<Option<(String, String)>> = lits.par_iter().map(crate::checks::c09::judge).collect();
@@ -271,6 +312,14 @@ pub fn replay(case: &Value) -> Result<String, String> {
         return match front::parse(text, "case.st") {
             Ok(_) => Ok("the text parses".into()),
             Err(d) => Err(format!("rejected with {}", d.code)),
+        };
+    }
+    if case["mode"] == json!("text-with-option") {
+        let text = case["text"].as_str().ok_or("text")?;
+        return match crate::util::catch(|| front::parse_allowing_c_style_comments(text, "case.st")) {
+            Err(p) => Err(format!("panicked at {}", p.loc)),
+            Ok(Ok(_)) => Ok("the text parses with allow_c_style_comments".into()),
+            Ok(Err(d)) => Err(format!("rejected with {}", d.code)),
         };
     }
     if case["mode"] == json!("literal") {
